@@ -420,6 +420,21 @@ theorem C04_merge_invisible_all_traces (evs : List Ev) :
     (pendDocs (Sys.init.run evs).st).Perm (Abs.init.run evs).pend :=
   (run_all evs Sys.init Abs.init inv_init rel_init).2
 
+/-- The same theorem about the machine the DRIVER executes (`runG`), whose behaviour at the four
+places the seeded changes touched is selected by guards extracted from the current source
+(`Gen/MergeGuards.lean`): cursor cloned after the `advance_deletes` loop, target opstamp chosen
+by register, `end_merge` cancelled unless one register holds ALL sources, reconciliation before
+the swap. While the guards hold, `runG = run`; when one flips, the equality lemmas no longer
+compile (this theorem is reported broken) and the executable model follows the changed code. -/
+theorem C04_merge_invisible_all_traces_extracted (evs : List Ev) :
+    (pubDocs (Sys.init.runG evs).st).Perm (Abs.init.run evs).pub ∧
+    (pendDocs (Sys.init.runG evs).st).Perm (Abs.init.run evs).pend := by
+  rw [runG_eq]
+  exact C04_merge_invisible_all_traces evs
+
+example : Gen.MERGE_CURSOR_AFTER_ADVANCE = 1 ∧ Gen.MERGE_TARGET_BY_REGISTER = 1
+    ∧ Gen.END_MERGE_REQUIRES_ALL_SOURCES = 1 ∧ Gen.END_MERGE_RECONCILES = 1 := by decide
+
 /-- in terms of the ids a searcher sees (`publishedUids` is what the driver prints) -/
 theorem C04_published_uids_all_traces (evs : List Ev) :
     (publishedUids (Sys.init.run evs).st).Perm ((Abs.init.run evs).pub.map (·.uid)) := by
